@@ -38,6 +38,17 @@ def keyProperty (pom : Pom) (us : List Upd) : Bool :=
   us.any fun u => pom.deps.any fun d =>
     !hasPrefix sProfile d.origin && interpKey (dict pom) d = u.key && !(d.key = u.key || interpKey (coordDict pom) d = u.key)
 
+/-- class predicate of C13/pom-origin-ignored as it is left after fix b0b162fc: two declarations reached by the update's key get the
+same best score — same kind of requirement (dependencyManagement or not) and both, or neither, written with the version the update
+starts from (the project's and a profile's entry at one version, versions through properties) — so the writer takes the first -/
+def ambiguous (pom : Pom) (u : Upd) : Bool :=
+  let hs := (hits pom u).filter fun d => d.ver ≠ [] && (matchScore u d).isSome
+  let top := hs.foldl (fun m d => max m (scoreVal u d)) 0
+  (hs.filter fun d => scoreVal u d = top).length ≥ 2 ||
+  -- … or Read reports the SAME requirement twice (one declaration with a literal version, another reaching that version through a
+  -- property): the update addresses both, the writer rewrites one declaration
+  ((requirements pom).filter (addresses u)).length ≥ 2
+
 /-- where a property patch for dependency `d` can be written: the project's `<properties>` or the
 `<properties>` of the dependency's own profile -/
 def writableProp (pom : Pom) (d : Dep) (n : Str) : Bool :=
@@ -56,7 +67,7 @@ def otherProfileProp (pom : Pom) (us : List Upd) : Bool :=
 5743d35a, f5d17448, d4dd80ce and 95fbdd2e.) -/
 def feature (pom : Pom) (us : List Upd) : Option String :=
   if keyProperty pom us then some "C13/pom-key-property"
-  else if us.any (fun u => (hits pom u).length ≥ 2) then some "C13/pom-origin-ignored"
+  else if us.any (ambiguous pom) then some "C13/pom-origin-ignored"
   else if us.any (fun u => (hits pom u).any fun d =>
       (namesOf d.ver).any fun n => pom.deps.any fun d' => d' ≠ d && (namesOf d'.ver).contains n) then
     some "C13/pom-shared-property"
